@@ -383,6 +383,22 @@ def check_aux(run, bitpacked):
         n = len(arg)
         if any(not np.array_equal(out[k], base[k][:n]) for k in out):
             run.violation('aux-container-dependence', dict(container=label))
+    # ppd given as a float a few ulp (or 1e-9 relative) off an integer, as NP**(1/3) or a float header value produces:
+    # the decoder accepts it as that integer (isclose), so the result must be the integer's result, not ppd-1's
+    few = packed[:400]
+    for P in (64, 1728, 6912, 3456, 2304, 1152, 9, 100):
+        ref_lp = bitpacked.unpack_pids(few, box=500.0, ppd=P, float_dtype=np.float64, lagr_pos=True)['lagr_pos']
+        forms = {'cube-root': float(P**3) ** (1 / 3), 'below': float(np.nextafter(float(P), 0.0)), 'above': float(np.nextafter(float(P), np.inf)), 'rel-1e-9-below': P * (1 - 1e-9), 'rel-1e-9-above': P * (1 + 1e-9), 'np.float32': np.float32(P)}
+        for label, val in forms.items():
+            run.ev()
+            run.nt(('aux_near_int_ppd', P, label))
+            try:
+                got = bitpacked.unpack_pids(few, box=500.0, ppd=val, float_dtype=np.float64, lagr_pos=True)['lagr_pos']
+            except ValueError:
+                run.count('aux_near_int_ppd_rejected')  # refusing is not a wrong value
+                continue
+            if not np.allclose(got, ref_lp, rtol=0, atol=0.01 * 500.0 / P):  # 1% of a lattice spacing: far above the 1e-9 relative spread of the accepted forms, far below an off-by-one ppd
+                run.violation('aux-near-integer-ppd', dict(ppd=repr(val), form=label, intended=P, max_abs_diff=float(np.abs(got - ref_lp).max()), lattice_spacing=500.0 / P))
     w3 = rng.integers(0, 1 << 32, (500, 3), dtype=np.uint64).astype(np.uint32).view(np.int32)
     refp, refv = bitpacked.unpack_rvint(w3, 500.0)
     big = np.zeros((500, 6), dtype=np.int32)
